@@ -110,7 +110,15 @@ def run(ctx: core.Ctx):
             mo, path, mt = searchlib.split_model(model[idx])
             ctx.count(f"{kind}:{mo.split()[0] if not mo.startswith('selected') else 'selected:' + str(path)}")
             nontrivial = path != "bracket0"
-            if mo != out_r or mt != tr_r:
+            if kind == "root":
+                rk, rv = out_r
+                mk = mo.split()[0]
+                same = (rk == mk) or (rk.startswith("bracketed") and mk == "bracketed") or (rk.startswith("raise") and mo == rk)
+                if same and rv is not None:
+                    same = abs(float(core.pr(mo.split()[1])) - rv) <= 2 * (1e-6 + 1e-6 * args[4])
+            else:
+                same = mo == out_r and mt == tr_r
+            if not same:
                 ctx.disagreements_checked += 1
                 if first_diff is None:
                     first_diff = {"case": c, "real": r, "model": model[idx]}
